@@ -14,31 +14,31 @@ CHECKS = {
     "C01": ("exploration", "3 C01", "seeded simulation of the real proxy (UDP+TCP relay world) with a conservation oracle at the socket boundary",
             "Every message the real proxy emits in a simulated deployment (1-3 listeners from generated YAML, four relaying paths, UDP and TCP ingress/egress, full-width generated headers and bodies, seeded schedules) is attributed to the message that caused it and compared field by field outside the headers the proxy owns; exactly one Content-Length equal to the body sent."),
     "C02": ("exploration", "3 C02", "seeded simulation: response injection over UDP/TCP judged against a reference next-hop function; absence decided at exact quiescence",
-            "Responses with 1-6 Via entries in all layouts are injected at the listeners of the simulated proxy; at exact quiescence the emissions attributable to each must be none or exactly one to the address/transport the reference function derives from the sent bytes, with the remaining Via entries intact."),
+            "Responses with 1-6 Via entries in all layouts are injected at the listeners of the simulated proxy; at exact quiescence the emissions attributable to each must be none or exactly one to the address/transport the reference function derives from the sent bytes, with the remaining Via entries intact. A sixteenth of the worlds are C12's TCP-client worlds, judged by the last sentence of the statement (the answer returns to the hop its request came from)."),
     "C03": ("exploration", "3 C03", "seeded simulation over the decision table of configurations x request shapes, reference precedence function, exactly-one/none at quiescence",
             "Configurations and requests are drawn to cover Route / static route / service / drop classes; the set of emissions attributable to each arrival, observed at the simulated socket boundary at exact quiescence, must be exactly the one destination the reference precedence function gives (or empty)."),
     "C05": ("exploration", "3 C05", "seeded schedules of racing simulated goroutines on the real round-robin set; recorded invoke/return history checked with porcupine against a sequential rotation specification; plus rotation windows through the proxy under DNS-driven membership",
             "One simulated goroutine dispatches through a real RoundRobinBackend while one or two others add and remove real UDP backends on the simulated network (sequences up to 400 operations over 5 addresses, short ones dominate); which lock acquisition interleaves with which is decided by the seeded scheduler (random, run-to-block, PCT); the history stamped with a global sequence number must be linearizable w.r.t. the specification written from the statement (member at that moment, strict rotation between changes, 'none' only when empty). Through the proxy: after every resolution step any k consecutive dispatches over k backends reach each exactly once."),
     "C06": ("exploration", "3 C06", "seeded simulation with learning histories; Via/Record-Route model with causal 'learned' relation; branch freshness per world",
-            "Relay world with learning histories across 1-3 listeners; each relayed request's Via and Record-Route lists are compared with the reference insertion policy (inserted iff backend path or causally learned next hop; don't-care when the teaching is concurrent or ambiguous)."),
+            "Relay world with learning histories across 1-3 listeners; each relayed request's Via and Record-Route lists are compared with the reference insertion policy (inserted iff backend path or causally learned next hop; don't-care when the teaching is concurrent or ambiguous). A sixteenth of the worlds are the name-resolution worlds of C19 (requests towards backends while the rotation changes, pinned dialogs of withdrawn backends): one fresh Via of the listen entry on each."),
     "C07": ("exploration", "3 C07", "seeded simulation of YAML-started listeners with arbitrary simulated source addresses; stamp and return-path oracle",
-            "The proxy is started from generated YAML exactly as main() does it (no-received absent/true/false); requests arrive from arbitrary simulated source addresses over UDP and TCP with spoofed/absent received and rport; the sender's Via at the next hop must carry the true source (or be untouched when disabled)."),
+            "The proxy is started from generated YAML exactly as main() does it (no-received absent/true/false); requests arrive from arbitrary simulated source addresses over UDP and TCP with spoofed/absent received and rport; the sender's Via at the next hop must carry the true source (or be untouched when disabled). A sixteenth of the worlds are C12's TCP-client worlds: with received-support on, every final answer travels back to the connection its request really came from."),
     "C11": ("exploration", "3 C11", "seeded fault injection on the TCP byte stream: plan-chosen segmentation and kernel-chosen read sizes; sequence equality per connection at quiescence",
             "Streams of 1-8 generated messages (long header lines, bodies that look like SIP, LF/CRLF, keep-alives) are cut into segments by the plan (systematic single/double cuts for short streams, clustered multi-cuts otherwise) and read back in kernel-chosen sizes; per connection the relayed messages must be exactly the stream's messages in order and content."),
     "C13": ("exploration", "3 C13", "seeded simulation with Route-set generator, alias tables and keep-next-hop settings; reference route-consumption function",
             "Requests with Route sets of 0-6 entries (own address / alias / near misses / foreign, decorated entries) are relayed by the simulated proxy; the relayed Route list must equal the reference: own entry consumed only when it designates the receiving listener, next hop stripped unless configured to keep it, the rest unchanged in order."),
     "C04": ("exploration", "3 C04", "seeded simulation of concurrent dialogs with reactive parties, UDP duplication/reordering/loss; pin model driven by observed causality",
-            "1-50 concurrent INVITE and SUBSCRIBE dialogs over 2-6 backends behind one or two listeners; backends answer from their configured address, user agents continue a dialog when they observe the answer; every in-dialog request sent after the establishing answer was observed must reach the answering backend and nothing else (requests concurrent with the establishing event are counted don't-cares)."),
+            "1-50 concurrent INVITE and SUBSCRIBE dialogs over 2-6 backends behind one or two listeners; backends answer from their configured address, user agents continue a dialog when they observe the answer; every in-dialog request sent after the establishing answer was observed must reach the answering backend and nothing else (requests concurrent with the establishing event are counted don't-cares). Variants: name-resolution worlds (pins survive membership changes), dialogs established by TCP backends over connections the proxy opened, and 6 % lifetime worlds of C15 judged by C04's rule."),
     "C08": ("exploration", "3 C08", "seeded simulation with corruption / truncation / hostile-field faults on both transports; wedge detection as a state (goroutine census at exact quiescence), sentinel transaction per listener after every hostile delivery, allocation bound",
             "Structural mutations of valid messages (bit flips, insert/delete, truncation, chunk duplication, splicing), raw bytes and hostile field values (Content-Length, Via host, missing or unparsable headers, thousands of headers/parameters) are delivered over UDP and TCP to a proxy carrying valid background traffic; after each one and exact quiescence: no goroutine panicked, all listener goroutines alive and idle, nothing stuck on a lock or channel send, a sentinel request per listener and transport relayed and answered, definitely-malformed TCP streams closed, allocated bytes <= 8 MiB + 64 x bytes delivered. Inputs are sampled by seeded structural mutation, not coverage-guided."),
     "C09": ("exploration", "3 C09", "seeded schedules (PCT, starvation, run-to-block, random) of the real proxy's goroutines with the Go race detector working inside the serialised simulation; simultaneous bursts timed on the resolver's poll instants, DNS churn, TCP backends dropping connections; census, conservation and panic oracles",
-            "2-4 listen entries of one service (shared learned-route table, resolver and static routes), UDP and TCP clients and backends, a backend host name shared by two entries and changed by the DNS script while simultaneous bursts arrive at the poll instants; -race build: every report whose stacks include the program under test is a violation (detection is by happens-before, so it does not depend on the accesses being adjacent); at quiescence no goroutine is stuck on a lock or channel send or has died, every request reached exactly one backend of its own entry and every answer returned to its sender. 45% of the worlds are the C10, C12, C04, C05 and C19 worlds re-run under the detector (buffer pool, transport table, rotation, resolver)."),
+            "2-4 listen entries of one service (shared learned-route table, resolver and static routes), UDP and TCP clients and backends, a backend host name shared by two entries and changed by the DNS script while simultaneous bursts arrive at the poll instants; -race build: every report whose stacks include the program under test is a violation (detection is by happens-before, so it does not depend on the accesses being adjacent); at quiescence no goroutine is stuck on a lock or channel send or has died, every request reached exactly one backend of its own entry and every answer returned to its sender. 45% of the worlds are the C10, C12, C04, C05 and C19 worlds re-run under the detector (buffer pool, transport table, rotation, resolver). The worlds of C10, C12, C04, C05 and C19 run under the race detector too; what their oracles say about lost, doubled or misdelivered messages counts as C09's conservation clause."),
     "C10": ("exploration", "3 C10", "seeded simulation of back-to-back datagram bursts (simultaneous arrivals) with starvation / PCT / random scheduling of the receive, parse and loop goroutines; truncation and length-lie faults; marker purity plus solo-replay differential",
-            "5-200 datagrams of 20 B - 60 KiB, each intact, cut at a drawn offset or lying about its length, arrive in simultaneous bursts so that receive buffers are recycled in scheduler-chosen orders; every emission must carry the marker of exactly one datagram, incomplete or over-declaring datagrams must produce no emission at exact quiescence, intact ones exactly one equal emission, and a sampled datagram must be relayed identically when replayed alone in a fresh world."),
+            "5-200 datagrams of 20 B - 60 KiB, each intact, cut at a drawn offset or lying about its length, arrive in simultaneous bursts so that receive buffers are recycled in scheduler-chosen orders; every emission must carry the marker of exactly one datagram, incomplete or over-declaring datagrams must produce no emission at exact quiescence, intact ones exactly one equal emission, and a sampled datagram must be relayed identically when replayed alone in a fresh world. In 15 % of the worlds the proxy is a slow node (every queue hand-over takes simulated time), so datagrams that arrive at different instants overlap as well."),
     "C12": ("exploration", "3 C12", "seeded simulation: 2-8 TCP client connections from one simulated address, answers of reactive backends reordered across connections, segmentation and short reads",
             "Every provisional and first final answer relayed for a request must be a write on the connection on which the request with that branch arrived; the proxy must not dial towards the client while its connections are open; every answered transaction gets its final answer."),
     "C15": ("exploration", "3 C15", "seeded simulation under the simulated clock (testing/synctest): exact expiry-instant probes (t0+L-1ns / t0+L / t0+L+1ns), termination, decades-long Expires; timed pin model; in-package table-age bound for the purge clause",
-            "dialogTimeout from YAML or DEFAULT_DIALOG_TIMEOUT (1 s - 2 h), establishing responses with Expires absent / smaller / larger / 2^31-1; the kernel knows the simulated instant t0 at which the establishing response was handed to the proxy, so a probe (as many simultaneous in-dialog requests as there are backends) processed before t0+max(timeout,Expires) must reach the pinned backend and one processed after it (or after BYE / NOTIFY terminated) must be load-balanced, with 1 ns resolution and no slack; in the purge variant 3-20 timeout periods of continuing traffic with mixed Expires must leave no entry that expired more than one timeout (plus the longest traffic gap) ago."),
+            "dialogTimeout from YAML or DEFAULT_DIALOG_TIMEOUT (1 s - 2 h), establishing responses with Expires absent / smaller / larger / 2^31-1; the kernel knows the simulated instant t0 at which the establishing response was handed to the proxy, so a probe (as many simultaneous in-dialog requests as there are backends) processed before t0+max(timeout,Expires) must reach the pinned backend and one processed after it (or after BYE / NOTIFY terminated) must be load-balanced, with 1 ns resolution and no slack; in the purge variant 3-20 timeout periods of continuing traffic with mixed Expires must leave no entry that expired more than one timeout (plus the longest traffic gap) ago. Variants: dialogs established by TCP backends, and 6 % concurrent dialog worlds of C04 judged by C15's first clause."),
     "C17": ("exploration", "3 C17", "metamorphic twin worlds: same plan, same schedule tape and entropy, every message respelled / re-laid-out; histories compared event by event",
             "World B replays world A's plan with header names independently respelled (canonical, compact, upper, lower, random case) and Via/Route/Record-Route lists re-laid-out; relay decision, destination, decoded routing stacks, remaining headers, body and the pinning decisions of scripted dialogs must be the same."),
     "C18": ("exploration", "3 C18", "seeded simulation with map iteration order drawn from the seed (rewrite rule R5); in-package repeated lookups on the table built by the real configuration code plus end-to-end routed requests",
